@@ -185,6 +185,8 @@ Inductive wop : Type :=
 | WBusAdd2 | WBusRemove2        (* the second node's interface joins / leaves the bus *)
 | WSetBuilderB (i : nat)        (* the second bus takes pool[i] (shared builder): no effect here *)
 | WSetBuilder (i : nat)         (* Bus.SetCANIDBuilder(pool[i]) *)
+| WSetBuilderNil                (* Bus.SetCANIDBuilder(nil): the bus goes back to a NEW default
+                                   builder, which joins the pool (Bus.CANIDBuilder() returns it) *)
 | WEdit (i : nat) (e : edit).   (* an edit of pool[i]; a refused edit changes nothing *)
 
 Fixpoint set_nth {A : Type} (i : nat) (v : A) (l : list A) : list A :=
@@ -259,8 +261,11 @@ Definition accepted (w : world) (o : wop) : bool :=
                 && negb (w_on_bus w && w_attached w && w_has_static w && static2_is w (w_static w))
   | WBusRemove2 => w_on_bus2 w
   | WSetBuilderB _ => true
-  | WSetBuilder _ => true
-  | WEdit i e => match apply_edit (nth i (w_builders w) []) e with Ok _ => true | Err _ => false end
+  | WSetBuilder i => (i <? length (w_builders w))%nat      (* the harness only passes builders it holds *)
+  | WSetBuilderNil => true
+  | WEdit i e =>
+      (i <? length (w_builders w))%nat
+      && match apply_edit (nth i (w_builders w) []) e with Ok _ => true | Err _ => false end
   end.
 
 (* the effect of an accepted operation *)
@@ -285,6 +290,7 @@ Definition wapply (w : world) (o : wop) : world :=
   | WBusRemove2 => upd_links w (w_attached w) (w_on_bus w) (w_sib_attached w) false (w_in_net w) (w_iface_removed w)
   | WSetBuilderB _ => w
   | WSetBuilder i => upd_builders w (w_builders w) i
+  | WSetBuilderNil => upd_builders w (w_builders w ++ [default_ops]) (length (w_builders w))
   | WEdit i e =>
       match apply_edit (nth i (w_builders w) []) e with
       | Ok b' => upd_builders w (set_nth i b' (w_builders w)) (w_cur w)
